@@ -31,7 +31,7 @@ CHECKS = {
     'C07': ('translation_validation',
             'metamorphic: original and permuted/renamed program both compiled by the real compiler, equivalence of the two emitted SQL texts decided by z3 over a bounded symbolic database; sat models replayed on real SQLite',
             'For each catalogue program (core, agg, rec) and a seeded permutation of rules/conjuncts/disjuncts or renaming of variables/predicates, z3 proves both emitted SQL texts return the same multiset on every database with <=K rows per table.',
-            'Trusted: lv/sqlsem.py, z3. Part (b) of the design (order independence of the Python aggregate UDFs) is decided in C20.',
+            'Trusted: lv/sqlsem.py, z3. Part (b) of the design (order independence of the Python aggregate UDFs ArgMin/ArgMax/Set/ArrayConcatAgg) is decided by the kernels of the C20 check, which also carry the Set arrival-order known finding.',
             'DESIGN.md §3 C07', 'sqlsmt'),
     'C08': ('translation_validation',
             'metamorphic: the same program under its default plan and under a seeded assignment of @NoInject/@With/@NoWith/@Ground to its intermediates, both compiled by the real compiler; equivalence decided by z3 over a bounded symbolic database (multi-statement @Ground plans through a symbolic statement interpreter); sat models replayed on real SQLite',
@@ -63,6 +63,11 @@ CHECKS = {
             'For each catalogue program with an ordered/limited predicate z3 proves, for every database with <=K rows whose sort keys form a total order, that the predicate returns exactly the first K reference rows in order and that consumers read exactly those rows (so it was not inlined without its clauses).',
             'Trusted: lv/sqlsem.py, lv/refsem.py, lv/vals.py order_limit_rel, z3. Assumes distinct non-null sort keys.',
             'DESIGN.md §3 C18', 'sqlsmt'),
+    'C20': ('other',
+            'CrossHair symbolic execution of the real Python UDFs with unbounded symbolic ints over all arrival orders ("Confirmed over all paths"); z3 model of CPython set iteration to realise the Set-order candidate; z3 translation validation of the SQL-template built-ins (Range, Size, Element, in, Least/Greatest, arithmetic, comparison) against the reference; counterexamples replayed on the real code / real SQLite',
+            'ArgMin/ArgMax/ArgMinK/ArgMaxK/Array, ArrayConcatAgg, ArrayConcat, SortList, InList, Join and the content of Set are confirmed against one-line specifications for every arrival order (n<=4, ties excepted); template built-ins are proved against the reference on every database with <=2 rows.',
+            'Trusted: CrossHair, z3, lv/sqlsem.py model of the SQLite primitives, json stubbed as identity. Known finding KF-C20-set-arrival-order. Outside: ++, Split, ToString/ToInt64, floats.',
+            'DESIGN.md §3 C20', 'kern'),
 }
 
 NOT_APPLICABLE = {
